@@ -7,7 +7,9 @@
 //!     one generator shared by <threads> OS threads released by a barrier; each records the
 //!     values it is handed, in order; after joining, the main thread makes one more call
 //!     (<final>).  pace: 0 tight loop, 1 random short spins (lets the clock overtake `last`),
-//!     2 yield_now between calls, 3 staggered starts + bursts.
+//!     2 yield_now between calls, 3 staggered starts + bursts, 4 two phases: every thread makes the
+//!     first half of its calls, all threads meet at a barrier, then the second half (every
+//!     second-phase value must exceed every first-phase value).
 //!   B <serial> <warn 0|1> <calls> <pace>
 //!       | t0,v,t1,t0,v,t1,...
 //!     single thread; the harness reads the same clock (SystemTime, microseconds) just before
@@ -87,6 +89,9 @@ fn run_t(warn: bool, threads: usize, calls: usize, pace: u64, seed: u64) -> Stri
                         spin(r.below(200));
                     }
                     for k in 0..calls {
+                        if pace == 4 && k == calls / 2 {
+                            b.wait();
+                        }
                         v.push(g.next_timestamp());
                         match pace {
                             1 => {
@@ -222,6 +227,11 @@ fn main() {
         emit(&mut out, format!("T {:x} {:x} {:x} {:x} 0", serial, threads & 1, threads, calls));
         budget -= (threads * calls) as i64;
     }
+    for threads in [2u64, 5, 16] {
+        serial += 1;
+        emit(&mut out, format!("T {:x} 0 {:x} {:x} 4", serial, threads, 2_000));
+        budget -= (threads * 2_000) as i64;
+    }
     for pace in 0..3u64 {
         let calls = if pace == 1 { 5_000 } else { 40_000 };
         serial += 1;
@@ -245,13 +255,14 @@ fn main() {
                 1 => 16,
                 _ => r.range(2, 16),
             };
-            let pace = r.below(4);
+            let pace = r.below(5);
             let per = match r.below(20) {
                 0 => cap / threads,                     // as large as the cap allows (>= 10^4 per thread for <= 13 threads)
                 1..=3 => r.range(5_000, 20_000).min(cap / threads),
                 _ => r.range(100, 2_500),
             };
             let per = if pace == 2 { per.min(3_000) } else { per };
+            let per = if pace == 4 { (per / 2 * 2).max(2) } else { per };
             emit(&mut out, format!("T {:x} {:x} {:x} {:x} {:x}", serial, r.below(2), threads, per, pace));
             budget -= (threads * per) as i64;
         }
